@@ -119,7 +119,29 @@ func New(id, level string) *Run {
 			r.kf.Findings[i].re = re
 		}
 	}
+	if os.Getenv("VERIF_CHILD") == "" {
+		go r.stallMonitor()
+	}
 	return r
+}
+
+// stallMonitor ends a wedged check as a harness error: no evaluation was recorded for a long
+// time (a change under test that blocks or spins outside what this property's exploration
+// guards).  It never produces a violation.
+func (r *Run) stallMonitor() {
+	limit := 900 * time.Second
+	last, since := r.evals.Load()+r.states.Load(), time.Now()
+	for {
+		time.Sleep(5 * time.Second)
+		if cur := r.evals.Load() + r.states.Load() + r.transitions.Load(); cur != last {
+			last, since = cur, time.Now()
+			continue
+		}
+		if time.Since(since) > limit {
+			fmt.Fprintf(os.Stderr, "HARNESS-ERROR: %s made no progress for %v (wedged); giving up\n", r.ID, limit)
+			os.Exit(2)
+		}
+	}
 }
 
 func (r *Run) Thorough() bool { return r.Tier == "thorough" }
